@@ -647,6 +647,11 @@ class Gen:
                     f.tags = dict(r.sample([("owner", "John"), ("uuid", "3f74"), ("env", "prod")], r.randint(0, 2)))
                 if any(x.addr == f.addr for x in c.fronts):      # one frontend per (cluster, address)
                     continue
+                # a TCP/UDP address takes the frontends of one cluster (loader rule since 88dc093; the neighbour
+                # 'tcp-address-two-clusters' breaks it on purpose)
+                owners = self.__dict__.setdefault("towner", {})
+                if owners.setdefault(ca, cid) != cid:
+                    continue
                 c.fronts.append(f)
             if udp and r.random() < 0.7:
                 c.pay[4] = 1
@@ -861,6 +866,15 @@ def violate(rng, which):
             c = r.choice(cs); f = r.choice(c.fronts)
             f2 = Front(f.toml_addr, f.addr); f2.tags = r.choice([f.tags, None, {}, {"env": "prod"}])
             c.fronts.insert(r.randrange(len(c.fronts) + 1), f2)
+        elif which == "tcp-address-two-clusters":
+            cs = [c for c in d.clusters if c.proto == 1 and c.fronts]
+            if not cs: continue
+            c = r.choice(cs); f = r.choice(c.fronts)
+            others = [x for x in d.clusters if x.proto == 1 and x is not c]
+            if not others: continue
+            c2 = r.choice(others)
+            f2 = Front(f.toml_addr, f.addr); f2.tags = r.choice([f.tags, None, {"env": "prod"}])
+            c2.fronts.insert(r.randrange(len(c2.fronts) + 1), f2)
         elif which == "duplicate-backend":
             cs = [c for c in d.clusters if c.backs]
             if not cs: continue
@@ -887,7 +901,7 @@ VIOLATIONS = ["unknown-listener-protocol", "unknown-cluster-protocol", "missing-
               "tcp-frontend-with-hostname", "tcp-cluster-mixing-expect-proxy", "hsts-on-http-frontend", "duplicate-cluster-id",
               "automatic-state-save-without-saved-state", "missing-certificate-file", "malformed",
               "certificate-without-key", "key-without-certificate", "invalid-health-check",
-              "duplicate-route", "duplicate-tcp-frontend", "duplicate-backend", "h2-not-first-small-buffer"]
+              "duplicate-route", "duplicate-tcp-frontend", "tcp-address-two-clusters", "duplicate-backend", "h2-not-first-small-buffer"]
 
 
 def gen_cases(rng, tier):
@@ -947,7 +961,9 @@ LEVEL_TEXT = ("Machine-checked proof (Coq 8.16) over an executable model of the 
               "generate_config_messages (the counter's machine width is regenerated from the source) -> ConfigState::dispatch. Theorems, "
               "for ANY number of entries and any HashMap iteration order, with no side condition on the file: "
               "loader_enforces_distinct_keys and frontends_have_listeners (the loader invariant: every key the state uses is unique in an "
-              "accepted file; every frontend sits on a listener of its own protocol), load_total_and_exact (the generated requests are all "
+              "accepted file; every frontend sits on a listener of its own protocol), stream_address_one_cluster / state_guard_silent (a TCP/UDP "
+              "address of an accepted file belongs to one cluster, so ConfigState's 'bound to another cluster' guard cannot fire on the "
+              "file's own requests), load_total_and_exact (the generated requests are all "
               "accepted by a fresh state and the state is exactly final_state), loaded_state_exact / loaded_config_exact (same objects, each "
               "once; every declared cluster with all its frontends and backends), accepted_health_checks_valid, reload_idempotent, "
               "ids_unique_upto / ids_collide_beyond over any modulus, ids_unique for the current counter (usize after the fix; "
@@ -962,5 +978,5 @@ LEVEL_NOTE = ("Partial where stated: TOML -> FileConfig (toml/serde) is covered 
               "listener of the frontend's protocol, a declared listener of another protocol is rejected. Trusted: Coq kernel; extraction + "
               "ocaml/driver.ml for the correspondence only; certificate parsing is an oracle. Defects found and fixed in /repo: u8 message "
               "counter (cd23906), certificate without key (1ae5a06), unvalidated health_check (c916f85), duplicate frontends accepted "
-              "(b1489f3, 495ea94), duplicate backends merged (58bb4e6).")
+              "(b1489f3, 495ea94), duplicate backends merged (58bb4e6), a TCP/UDP address claimed by two clusters accepted (88dc093).")
 TECHNIQUE = "Rocq/Coq proof over an executable Gallina model + differential correspondence (extracted OCaml vs real crate)"
